@@ -326,6 +326,9 @@ func (r *runner) judge(b []byte, where string) *obs {
 			if m.removed[v.ID] {
 				flags = append(flags, "removed")
 			}
+			if v.Sdt {
+				flags = append(flags, "in-sdt")
+			}
 		case "numId":
 			if m.preNum[v.ID] {
 				flags = append(flags, "pre-open")
@@ -760,6 +763,10 @@ func (r *runner) step(i int, op Op) bool {
 			if err == nil {
 				m.newDoc()
 				res.Label("op:md")
+				// the converted document uses heading, quote and code styles according to its source
+				for _, id := range []string{"Heading1", "Heading2", "Heading3", "Heading4", "Heading5", "Heading6", "Quote", "CodeBlock"} {
+					m.used[id] = true
+				}
 			}
 		case isListOp(op.K):
 			m.lists++
@@ -889,16 +896,17 @@ func run(c Case) *kit.Result {
 func TestC13(t *testing.T) {
 	kit.Main(t, kit.Spec[Case]{
 		ID: "C13", Level: "exploration",
-		Rule: "history of 1-18 (thorough 1-40) generated calls (+ a scenario tail in 1/3 of the cases) over the style API (CreateCustomStyle, AddStyle, in-place change, RemoveStyle of an unused style, CreateQuickStyle), styled content (headings 1-9, SetStyle with an id registered at that moment, quote/code via markdown, GenerateTOC/AutoGenerateTOC/UpdateTOC, ApplyTableStyle, CreateCustomTableStyle), list items, notes, saves (ToBytes/Save) and reopen (same process / fresh process); 1/4 of the cases start from a package with localised style ids, its own numbering and notes. Every intermediate and the final package is judged. Non-trivial = >=2 judged saves with a style/list/TOC op between them, or an opened package extended by a style-API or list op; distinct = distinct (start shape, op kind sequence)",
+		Rule: "history of 1-18 (thorough 1-40) generated calls (+ a scenario tail in 1/3 of the cases) over the style API (CreateCustomStyle, AddStyle, in-place change, RemoveStyle of an unused custom or predefined style - also right before the heading/TOC call that would normally use it, CreateQuickStyle), styled content (headings 1-9, SetStyle with an id registered at that moment, quote/code via markdown, GenerateTOC/AutoGenerateTOC/UpdateTOC, ApplyTableStyle, CreateCustomTableStyle), list items, notes, saves (ToBytes/Save) and reopen (same process / fresh process); 1/4 of the cases start from a package with localised style ids, its own numbering and notes. Every intermediate and the final package is judged. Non-trivial = >=2 judged saves with a style/list/TOC op between them, or an opened package extended by a style-API or list op; distinct = distinct (start shape, op kind sequence)",
 		Gen:  genCase, Run: run, Findings: findings,
 		Assumptions: []string{
 			"ids are resolved by the harness's own zip/OPC reader and canonical XML trees; the styles/numbering/notes parts are located through the main part's relationships, else by content type, else by their conventional names (where a relationship is missing or misplaced is C02's clause, except the numbering relationship which X2 names)",
 			"the library writes a note reference as a run whose whole text is [N] / [尾注N]; such runs are taken as references to note id N (generated texts never have this form)",
-			"a reopen 'in a fresh process' is simulated by resetting the process-wide note/numbering registries (VerifResetGlobals) before opening",
+			"the note/numbering registries are per document since /repo 996cdc4: every reopen starts from empty registries, the same-process/fresh-process flag of the reopen op no longer changes anything",
+			"a style counts as unused (removable) when no op of the history gave it to a body element, the package the document was opened from does not refer to it, no TOC op ran (TOC/Heading1 ids), no markdown conversion produced the document (heading/quote/code ids) and no known style is based on it",
 			"X4 expectations are dropped when the document object is replaced (reopen, markdown conversion) and when a style is removed: the statement promises presence in the next save only"},
 		MustSee: map[string]float64{"saves>=2": 0.5, "style/list/toc-op-between-saves": 0.3, "opened-then-extended": 0.15, "start:foreign": 0.15,
 			"style:early": 0.2, "style:after-save": 0.1, "style:on-opened": 0.15, "remove:heading-style": 0.05, "heading:after-its-style-removed": 0.03, "toc:after-removed-toc-style": 0.01, "op:pstyle": 0.2, "pstyle:api-style": 0.05, "heading:9": 0.05, "op:autotoc": 0.05, "op:toc": 0.05,
-			"op:tblstyle-template": 0.05, "op:tblcustom": 0.03, "op:list": 0.25, "op:note": 0.3, "list:after-open-with-lists": 0.03,
+			"op:tblstyle-template": 0.05, "op:tblcustom": 0.03, "op:list": 0.2, "op:note": 0.3, "list:after-open-with-lists": 0.03,
 			"note:after-open-with-notes": 0.03, "reopen:fresh-process": 0.15, "reopen:same-process": 0.15, "op:md": 0.05, "op:st.mod": 0.1},
 	})
 }
